@@ -27,7 +27,12 @@ def validate(v, trace, name):
             v.cov["samples"] += [e for e in evs if e["ev"] == "Spell" and e["form"] == "upper"][:1]
         for rej in rejects:
             e = evs[rej[0] - 1]
-            v.failure({"kind": rej[1], "word": e.get("word"), "form": e.get("form")}, {"event": e})
+            sig = {"kind": rej[1], "word": e.get("word"), "form": e.get("form")}
+            if e.get("dictionary"):
+                # merged-dictionary job: is the word one the curated part lists for another dialect only?
+                sig["dictionary"] = e["dictionary"]
+                sig["curated_lists_it_for_another_dialect"] = bool(e.get("curated_other_dialect"))
+            v.failure(sig, {"event": e})
     return len(distinct)
 
 
